@@ -4,6 +4,7 @@ import (
 	"encoding/json"
 	"errors"
 	"fmt"
+	"sort"
 	"strings"
 	"testing"
 
@@ -52,8 +53,8 @@ type Ent struct {
 	Kind string `json:"kind"` // v4 v6 mpls mplsenum nhg nh mac pf nil; for wants also err
 	S    string `json:"s,omitempty"`
 	N    uint64 `json:"n,omitempty"`
-	Pay  int    `json:"pay,omitempty"`    // payload variation below the key: must not matter
-	Raw  bool   `json:"raw,omitempty"`    // want built by hand instead of through the fluent builder
+	Pay  int    `json:"pay,omitempty"` // payload variation below the key: must not matter
+	Raw  bool   `json:"raw,omitempty"` // want built by hand instead of through the fluent builder
 }
 
 // St is a gRPC status error (or an unrelated error) of ClientErr.Send / Recv, or the wanted status.
@@ -692,6 +693,40 @@ func (c Case) coq(fatal bool) string {
 
 // ----------------------------------------------------------------------------- main
 
+// roundRobin orders the verdicts so that different kinds of failure come first (the check reports
+// the first few): first one verdict of every class, then the second of every class, ...
+// A class is the problem text without its numbers.
+func roundRobin(vs []drv.Verdict) []drv.Verdict {
+	class := func(p string) string {
+		return strings.Map(func(r rune) rune {
+			if r >= '0' && r <= '9' {
+				return -1
+			}
+			return r
+		}, p)
+	}
+	rank := map[string]int{}
+	type kv struct {
+		rank, pos int
+	}
+	keys := make([]kv, len(vs))
+	for i, v := range vs {
+		c := class(v.Problem)
+		keys[i] = kv{rank[c], i}
+		rank[c]++
+	}
+	idx := make([]int, len(vs))
+	for i := range idx {
+		idx[i] = i
+	}
+	sort.SliceStable(idx, func(a, b int) bool { return keys[idx[a]].rank < keys[idx[b]].rank })
+	out := make([]drv.Verdict, 0, len(vs))
+	for _, i := range idx {
+		out = append(out, vs[i])
+	}
+	return out
+}
+
 func runC17(args []string) error {
 	f := drv.NewFlags("c17")
 	if err := f.Parse(args); err != nil {
@@ -745,6 +780,7 @@ func runC17(args []string) error {
 		}
 	}
 	rep.Nontrivial = len(distinct)
+	rep.Violations = roundRobin(rep.Violations)
 	if err := drv.WriteCasesV(*f.Out, "From Coq Require Import List NArith ZArith String.\nFrom GV.Tools Require Import Chk ChkCases.\nImport ListNotations.",
 		"ccase", "cmismatches", coq); err != nil {
 		return err
